@@ -39,7 +39,8 @@ RENAME = {"_": "u_", "end": "end_", "from": "from_", "at": "at_", "fun": "fun_",
 
 
 class Ctx:
-    def __init__(self, where, fnsigs, globals_int, attr_map=None):
+    def __init__(self, where, fnsigs, globals_int, attr_map=None, derived=None):
+        self.derived = derived if derived is not None else {}   # module constant name -> (lean name, free globals)
         self.where = where
         self.fnsigs = fnsigs          # name -> FnInfo (already translated functions)
         self.globals_int = globals_int  # names of module-level integer constants
@@ -160,6 +161,11 @@ def tx(e, cx):
         if e.id in cx.globals_int:
             cx.use_global(e.id)
             return lname(e.id)
+        if e.id in cx.derived:
+            ln, free = cx.derived[e.id]
+            for g in free:
+                cx.use_global(g)
+            return "(%s%s)" % (ln, "".join(" " + lname(g) for g in free)) if free else ln
         die(cx.where, e, "unknown name %s" % e.id)
     if isinstance(e, ast.Attribute):
         key = ast.unparse(e)
@@ -358,7 +364,7 @@ TYPES = {"int": "Int", "P4": "Int × Int × Int × Int", "P2": "Int × Int", "bo
 def translate_function(fn, sig, cx_proto, where, attr_map=None, params_override=None):
     """sig = ([param types], return type).  returns (lean text, FnInfo)"""
     ptypes, rtype = sig
-    cx = Ctx(where + ":" + fn.name, cx_proto["fns"], cx_proto["globals"], attr_map)
+    cx = Ctx(where + ":" + fn.name, cx_proto["fns"], cx_proto["globals"], attr_map, cx_proto.get("derived"))
     params = params_override if params_override is not None else [a.arg for a in fn.args.args]
     if len(params) != len(ptypes):
         die(where, fn, "%s: expected %d parameters, found %d" % (fn.name, len(ptypes), len(params)))
@@ -390,34 +396,40 @@ def translate_ladder(fn, sig, cx, lean_name, asserts):
     """
     def f(pt, n):
         assert n >= 0
-        if n==0: return BASE
-        _ = DBL(f(pt, n>>1))
-        return ADD(_, pt) if n&1 else _
+        if n == 0: return BASE
+        <straight-line code containing exactly one call f(pt, n >> 1) (or n // 2)>
+    The recursive call becomes the variable `rec_`; the recursion is structural on fuel.
     """
     body = [s for s in fn.body if not (isinstance(s, ast.Expr) and isinstance(s.value, ast.Constant))]
     where = cx.where
     try:
-        a, c, asg, ret = body
+        a, c = body[0], body[1]
+        rest = body[2:]
         assert isinstance(a, ast.Assert) and ast.unparse(a.test) == "n >= 0"
-        assert isinstance(c, ast.If) and ast.unparse(c.test) == "n == 0" and len(c.body) == 1 and isinstance(c.body[0], ast.Return) and not c.orelse
-        assert isinstance(asg, ast.Assign) and ast.unparse(asg.targets[0]) == "_"
-        dbl = asg.value
-        assert isinstance(dbl, ast.Call) and len(dbl.args) == 1
-        inner = dbl.args[0]
-        assert isinstance(inner, ast.Call) and inner.func.id == fn.name and ast.unparse(inner.args[0]) == "pt" and ast.unparse(inner.args[1]) == "n >> 1"
-        assert isinstance(ret, ast.Return) and isinstance(ret.value, ast.IfExp)
-        assert ast.unparse(ret.value.test) == "n & 1" and ast.unparse(ret.value.orelse) == "_"
-    except (AssertionError, ValueError, AttributeError):
+        assert isinstance(c, ast.If) and ast.unparse(c.test) in ("n == 0", "not n") and len(c.body) == 1 and isinstance(c.body[0], ast.Return) and not c.orelse
+        assert [x.arg for x in fn.args.args] == ["pt", "n"] and rest
+    except (AssertionError, ValueError, AttributeError, IndexError):
         die(where, fn, "recursive function is not of the double-and-add shape")
     asserts.append("n >= 0")
     base = tx(c.body[0].value, cx)
-    cx.locals.add("_")
+
+    class Rep(ast.NodeTransformer):
+        count = 0
+
+        def visit_Call(self, node):
+            self.generic_visit(node)
+            if isinstance(node.func, ast.Name) and node.func.id == fn.name:
+                if len(node.args) != 2 or ast.unparse(node.args[0]) != "pt" or ast.unparse(node.args[1]) not in ("n >> 1", "n // 2"):
+                    die(where, node, "recursive call is not f(pt, n >> 1)")
+                Rep.count += 1
+                return ast.copy_location(ast.Name(id="rec_", ctx=ast.Load()), node)
+            return node
+    rest = [Rep().visit(st) for st in rest]
+    if Rep.count != 1:
+        die(where, fn, "expected exactly one recursive call, found %d" % Rep.count)
     cx.locals.add("rec_")
-    dbl_f = cx.fnsigs.get(dbl.func.id) or die(where, dbl, "unknown doubling function")
-    for g in dbl_f.free:
-        cx.use_global(g)
-    dbl_txt = "(%s %srec_)" % (dbl_f.lean_name, "".join(lname(g) + " " for g in dbl_f.free))
-    add_txt = tx(ret.value.body, cx)
+    cx.types["rec_"] = "int"
+    lines = body_to_lean(rest, cx, 4, asserts)
     free = canon(cx.free)
     fp = "".join("(%s : Int) " % lname(g) for g in free)
     fa = "".join(lname(g) + " " for g in free)
@@ -428,18 +440,17 @@ def %sAux %s(pt : Int × Int × Int × Int) : Nat → Int → Int × Int × Int 
   | fuel+1, n =>
     if decide (n = 0) then %s else
     let rec_ := %sAux %spt fuel (Py.shr n 1)
-    let u_ := %s
-    if decide ((Py.band n 1) ≠ 0) then %s else u_
+%s
 
 def %s %s(pt : Int × Int × Int × Int) (n : Int) : Int × Int × Int × Int :=
   %sAux %spt (Py.bitLength n).toNat.succ n
-""" % (fn.name, where, lean_name, lean_name, fp, base, base, lean_name, fa, dbl_txt, add_txt, lean_name, fp, lean_name, fa)
+""" % (fn.name, where, lean_name, lean_name, fp, base, base, lean_name, fa, "\n".join(lines), lean_name, fp, lean_name, fa)
     return txt, FnInfo(fn.name, lean_name, free)
 
 
 def const_int(node, env):
     """evaluate a module-level integer literal expression *symbolically* to Lean text"""
-    cx = Ctx("const", env["fns"], env["globals"])
+    cx = Ctx("const", env["fns"], env["globals"], None, env.get("derived"))
     return tx(node, cx), cx.free
 
 
@@ -494,7 +505,7 @@ ED_CONSTS = ["Q", "L", "d", "I", "By", "Bx"]
 
 def gen_ed25519():
     src, mod, h = read("ed25519_basic.py")
-    env = {"fns": {}, "globals": set()}
+    env = {"fns": {}, "globals": set(), "derived": {}}
     out = [HEADER % ("src/spake2/ed25519_basic.py", h), "namespace Ed\n"]
     sigs = dict(ED_SIGS)
     # walk the module in source order so that constants may use earlier functions and vice versa
@@ -509,6 +520,19 @@ def gen_ed25519():
                 # B = [Bx % Q, By % Q]
                 txt, free = const_int(node.value, env)
                 out.append("/-- module constant `B = %s` -/\ndef B_c : Int × Int := %s\n" % (ast.unparse(node.value), txt_with_consts(txt, free)))
+            else:
+                # any other module-level integer / tuple constant (e.g. a hoisted `2*d % Q`): a *derived*
+                # constant, emitted as a function of the base constants it mentions; untranslatable ones
+                # (objects such as Base, Zero, _zero_bytes) belong to the hand-written model and are skipped
+                try:
+                    txt, free = const_int(node.value, env)
+                except Untranslatable:
+                    continue
+                free = canon(free)
+                ln = "k_" + name.lstrip("_")
+                out.append("/-- derived module constant `%s = %s` -/\ndef %s %s:= %s\n" % (
+                    name, ast.unparse(node.value), ln, "".join("(%s : Int) " % lname(g) for g in free), txt))
+                env["derived"][name] = (ln, free)
         elif isinstance(node, ast.FunctionDef) and node.name in sigs:
             txt, info = translate_function(node, sigs[node.name], env, "ed25519_basic.py")
             # the cast in is_extended_zero: parameter named XYTZ
